@@ -202,6 +202,13 @@ def run(tier, seed):
     transitions += sw["runs"]
     cov["delay_sweep"] = {k: sw[k] for k in ("runs", "sites", "configs")}
 
+    # ---- 4b. the reference's own example commands under several batch sizes ---------------------
+    db = docs_batch_sweep(mlr, V, thorough)
+    executed += db["runs"]
+    states += db["runs"]
+    transitions += db["runs"]
+    cov["docs_batch_sweep"] = db
+
     # ---- 5. --seed reproducibility ------------------------------------------------------------
     sd = seed_check(mlr, V, thorough)
     executed += sd["runs"]
@@ -322,6 +329,78 @@ def delay_sweep(mlr, cfgs, V, rnd, usec=3000, check=None):
                                           "stderr": res[idx]["stderr"][:2000]})
     return {"runs": len(runs), "sites": len({(r, s) for c in cfgs for r, s in sites_of(c)}), "configs": len(cfgs),
             "bad": bad}
+
+
+def docs_batch_sweep(mlr, V, thorough):
+    """The example commands of the reference (docs/src/reference-*.md: the commands GENMD ran to produce the pages) re-run
+    under batch sizes 1, 2, 7 and the default: stdout and exit status must not depend on the batch size. The commands are
+    taken verbatim; nothing is known here about what they should print -- the oracle is the property (BatchIndependence)."""
+    import glob
+    import html
+    import os
+    import shlex
+    import shutil
+    src = os.path.join(vlib.REPO, "docs", "src")
+    work = vlib.scratch("docs")
+    dst = os.path.join(work, "src")
+    shutil.copytree(src, dst, symlinks=True, ignore=shutil.ignore_patterns("*.md", "*.md.in", "*.png", "*.jpg", "site", "*.html"))
+    cmds = []
+    for page in sorted(glob.glob(os.path.join(src, "reference-*.md")) + glob.glob(os.path.join(src, "questions-*.md"))
+                       + glob.glob(os.path.join(src, "operating-on-all-*.md")) + glob.glob(os.path.join(src, "shapes-of-data.md"))):
+        cur = None
+        for line in open(page, encoding="utf-8", errors="replace"):
+            line = line.rstrip("\n")
+            if line.startswith("<b>") and line.endswith("</b>"):
+                text = html.unescape(line[3:-4])
+                if cur is not None:
+                    cur += "\n" + text
+                elif text.startswith("mlr "):
+                    cur = text
+                if cur is not None and cur.count("'") % 2 == 0:
+                    cmds.append(cur)
+                    cur = None
+            else:
+                cur = None
+    banned = ("tee", "split", ">", "system", "exec", "urand", "shuffle", "bootstrap", "sample", "hostname", "os.", "systime", "sysntime",
+              "uptime", "version", " -I ", "--prepipe", "repl", "help", " -h", "--usage", "regtest", "lecat", "termcvt", "seqgen -f i --start 1 --stop 1000000",
+              "nothing", "ENV", "--nr-progress-mod", "case ", "summary", "split-", "--from", "--load", "--mload", "strfntime_local", "localtime", "--tz", "TZ",
+              "sec2date", "gmt2localtime", "exit ", "emit >", "print >", "dump >", "--ofmt %.3lf --c2p", "fill-down -a", "sparsify")
+    picked = []
+    seen = set()
+    for c in cmds:
+        if any(b in c for b in banned) or c in seen or "|" in c.split("'")[0]:
+            continue
+        seen.add(c)
+        picked.append(c)
+    if not thorough:
+        picked = picked[::2]
+    cases, meta = [], []
+    for c in picked:
+        for b in (1, 2, 7, 500):
+            cases.append({"shell": "cd %s && %s --records-per-batch %d %s" % (shlex.quote(dst), shlex.quote(mlr), b, c[4:]),
+                          "timeout_ms": 20000, "max_out": 2 << 20})
+            meta.append((c, b))
+    res = vlib.run_cases(cases)
+    vlib.confirm_timeouts(cases, res)
+    by_cmd = {}
+    for (c, b), r in zip(meta, res):
+        by_cmd.setdefault(c, {})[b] = (r["exit"], r["timed_out"], r["stdout"])
+    differing = []
+    usable = 0
+    for c, d in by_cmd.items():
+        if any(v[1] for v in d.values()):
+            V.violation({"shape": "docs-command-hangs", "command": c}, {"command": c})
+            continue
+        if all(v[0] != 0 for v in d.values()):
+            continue            # a command this harness cannot run from that directory (missing file, ...): not judged
+        usable += 1
+        if len({(v[0], v[2]) for v in d.values()}) > 1:
+            differing.append(c)
+            V.violation({"shape": "output-depends-on-batch-size", "command": c},
+                        {"command": c, "exit_by_batch": {str(b): v[0] for b, v in d.items()},
+                         "stdout_lengths_by_batch": {str(b): len(v[2]) for b, v in d.items()}})
+    shutil.rmtree(work, ignore_errors=True)
+    return {"commands": len(picked), "usable": usable, "runs": len(cases), "differing": differing[:10]}
 
 
 def printhead_probe(mlr, V):
